@@ -265,7 +265,7 @@ func runWire(t *testing.T, s *Scenario) (evs []wire.Event) {
 			s.SeqBase = &v
 		}
 		if s.ISN32 != nil {
-			s.Script.ISN = uint32(s.ISN32[0])<<16 | uint32(s.ISN32[1])
+			w.SetISN(uint32(s.ISN32[0])<<16 | uint32(s.ISN32[1]))
 		}
 		if s.SeqBase != nil {
 			v := uint32(*s.SeqBase)
